@@ -775,7 +775,8 @@ def units():
             FunctionUnit(IfContract(1)), FunctionUnit(IfContract(3)), FunctionUnit(ElseContract()),
             LemmaUnit("lemma:C02-inv", lemma_c02_inv),
             LeanUnit("lemma:L-PERM", "lemmas/LPerm.lean", ["run_eq_of_linear_extensions"]),
-            LeanUnit("lemma:L-TOPO", "lemmas/LTopo.lean", ["pairwise_of_respects"])]
+            LeanUnit("lemma:L-TOPO", "lemmas/LTopo.lean", ["pairwise_of_respects"])] \
+        + __import__("contracts.c02assign", fromlist=["units"]).units()
 
 
 LEVEL = "proof"
@@ -790,9 +791,9 @@ TRUSTED_BASE = [
     "_add_statement enters if_ through the part of its contract that if_ needs (a statement is appended under the current guard stack)",
 ]
 ASSUMPTIONS = [
-    "statement objects are abstract: declared_reads / declared_writes / is_assignment are arbitrary; every builder method that adds a statement goes through _add_statement (checked only for if_)",
+    "statement objects are abstract: declared_reads / declared_writes / is_assignment are arbitrary; every builder method that adds a statement goes through _add_statement (proved for if_, assign, yield_state, fail_step, raise_, switch_phase, restart_step)",
     "the body of a with-block is an arbitrary sequence of builder calls that keeps the guard-stack discipline (contextmanager semantics: code before `yield` on entry, after it on exit)",
-    "assign / yield_state / fail_step / ... (the thin wrappers constructing statement objects) are not under contract; covered by the bounded stand-in",
+    "assign / yield_state / fail_step / raise_ / switch_phase / restart_step are under provenance contracts (contracts/c02assign.py): exactly one statement, of the class and with every argument that was written (text parsed, loops in order and never dropped, all assignees of a call); python-level tags, the tuple-of-assignees case is run with two assignees; assign_implicit* are not under contract",
 ]
 EXPLANATION = ("_add_statement is executed symbolically (54 paths, four loops over sets in arbitrary order, write-through aliasing of "
                "`readers`) and proved to establish the transition: the new statement depends on the last writer of everything it reads or "
